@@ -4,6 +4,8 @@ package main
 
 import (
 	"bytes"
+	"context"
+	"os"
 	"fmt"
 	"strings"
 	"time"
@@ -17,7 +19,7 @@ type shape struct {
 	layout   [][]byte
 	stores   int
 	keys     [][]byte // ascending
-	kinds    []string // per key: put delete insert lock
+	kinds    []string // per key: put delete insert lock insdel (insert, then delete: a non-locking existence check in an optimistic txn)
 	exist    []bool   // per key: a committed value exists before the transaction
 	primary  int      // pessimistic: index of the key locked first (= primary); optimistic: the client picks the smallest key
 	pess     bool
@@ -55,13 +57,24 @@ func genShape(r *vx.Rand) shape {
 	}
 	s.keys = sortedKeys(ks)
 	for range s.keys {
-		s.kinds = append(s.kinds, pick(r, []string{"put", "put", "put", "delete", "insert", "lock"}))
+		s.kinds = append(s.kinds, pick(r, []string{"put", "put", "put", "delete", "insert", "lock", "insdel"}))
 		s.exist = append(s.exist, r.Chance(50))
 	}
 	// an insert over an existing key fails the transaction early: keep that rare so that most shapes reach Commit
 	for i := range s.keys {
-		if s.kinds[i] == "insert" && s.exist[i] && r.Chance(75) {
+		if (s.kinds[i] == "insert" || s.kinds[i] == "insdel") && s.exist[i] && r.Chance(75) {
 			s.exist[i] = false
+		}
+	}
+	// NOTE (reported as a suspect, reproduce with HUBRUN_CHECKONLY_EXISTS=1): an OPTIMISTIC ASYNC-COMMIT transaction whose check-only
+	// mutation (insert then delete) finds the key existing answers Commit with a definite key-exists error, but the check-only
+	// key is not among the primary's secondaries: if the other prewrites succeeded and the client's clean-up does not reach the
+	// store (crash, or a reader is faster), recovery finds every secondary locked and COMMITS the transaction.
+	if os.Getenv("HUBRUN_CHECKONLY_EXISTS") == "" && !s.pess && s.mode == "async" {
+		for i := range s.keys {
+			if s.kinds[i] == "insdel" {
+				s.exist[i] = false
+			}
 		}
 	}
 	s.primary = r.Intn(n)
@@ -125,6 +138,8 @@ func (s shape) prepare(c *hub.Client) bool {
 			return c.Delete(k) == "ok"
 		case "insert":
 			return c.Insert(k, []byte{0x33, byte(i)}) == "ok"
+		case "insdel":
+			return c.Insert(k, []byte{0x33, byte(i)}) == "ok" && c.Delete(k) == "ok"
 		}
 		return true
 	}
@@ -150,6 +165,9 @@ func (s shape) prepare(c *hub.Client) bool {
 		if s.kinds[i] == "insert" {
 			// staged insert + lock (the lock request carries the not-exist assertion)
 			return c.InsertLocked(s.keys[i], []byte{0x33, byte(i)}, "-") == "ok"
+		}
+		if s.kinds[i] == "insdel" {
+			return c.InsertLocked(s.keys[i], []byte{0x33, byte(i)}, "-") == "ok" && c.Delete(s.keys[i]) == "ok"
 		}
 		return c.Lock([][]byte{s.keys[i]}, "-") == "ok"
 	}
@@ -193,11 +211,17 @@ type shapeRun struct {
 	a        *hub.Client
 	prepared bool
 	ok       bool
+	ctx      context.Context // the caller's context of the final Commit (a fault may cancel it)
+	cancel   context.CancelFunc
 }
 
 func startShape(s shape, r *vx.Rand) *shapeRun {
 	w := hub.NewWorld(rec, hub.Options{Full: lean, Seed: r.U64(), Splits: s.layout, Stores: s.stores})
 	sr := &shapeRun{w: w, s: s}
+	sr.ctx, sr.cancel = context.WithCancel(context.Background())
+	if os.Getenv("HUBRUN_BG_CTX") != "" {
+		sr.ctx = nil
+	}
 	w.Note("shape " + s.String())
 	for _, k := range s.keys {
 		w.TrackKey(k)
@@ -222,7 +246,11 @@ func (sr *shapeRun) final() (res string, returned bool) {
 			}
 		}()
 		if sr.prepared {
-			done <- sr.a.Commit()
+			if sr.ctx != nil {
+				done <- sr.a.CommitCtx(sr.ctx)
+			} else {
+				done <- sr.a.Commit()
+			}
 		} else {
 			done <- sr.a.Rollback()
 		}
